@@ -28,7 +28,9 @@ META = dict(
                'TaskPool.hold_active_task', 'TaskPool.release_held_active_task',
                'TaskPool.spawn_task (hold block)', 'TaskPool.queue_if_ready',
                'TaskPool.release_queued_tasks', 'TaskProxy.is_ready_to_run',
-               'LimitedTaskQueue.release'],
+               'LimitedTaskQueue.release', 'WorkflowDatabaseManager.'
+               'put_workflow_params / put_workflow_hold_cycle_point / '
+               'put_workflow_paused'],
     bounds=['commands: hold/release of 1/a, 2/a (active) and 3/a (inactive), '
             'hold point 1, 2 or 3, release hold point, spawn 3/a, queue+release '
             'pass; length 3 quick / 4 thorough'],
@@ -158,11 +160,79 @@ def ops(o1: int, o2: int, o3: int, o4: int) -> bool:
     return True
 
 
+# --- persistence of the hold point in the workflow_params rows -------------
+def _apply_params(mgr, table):
+    T = mgr.TABLE_WORKFLOW_PARAMS
+    for where in mgr.db_deletes_map[T]:
+        for key in list(table):
+            if all({'key': key, 'value': table[key]}[k] == v
+                   for k, v in where.items()):
+                del table[key]
+    for row in mgr.db_inserts_map[T]:
+        if isinstance(row, dict):
+            table[row['key']] = row['value']
+        else:
+            table[row[0]] = row[1]
+    for m in (mgr.db_deletes_map, mgr.db_inserts_map, mgr.db_updates_map):
+        for lst in m.values():
+            del lst[:]
+
+
+def params_table(o1: int, o2: int, o3: int, o4: int) -> bool:
+    """
+    pre: 0 <= o1 <= 4 and 0 <= o2 <= 4 and 0 <= o3 <= 4 and 0 <= o4 <= 4
+    post: _
+    """
+    # commands: 0/1 set hold point 1/2, 2 release hold point, 3 reload
+    # (commands.reload_workflow re-writes the workflow parameters through
+    # put_workflow_params), 4 pause.  After every command the rows handed to
+    # the workflow_params table must still record the hold point in force -
+    # that row is what a restart restores it from.
+    from types import SimpleNamespace as NS
+    from cylc.flow.workflow_db_mgr import WorkflowDatabaseManager
+    from cylc.flow.run_modes import RunMode
+    ops_ = [fork_int(o, 0, 4) for o in (o1, o2, o3, o4)]
+    with concrete():
+        pool = fx.pool(CFG)
+        mgr = WorkflowDatabaseManager()
+        mgr.pri_dao = mgr.pub_dao = None
+        pool.workflow_db_mgr = mgr
+        for p in (1, 2):
+            t = fx.itask(CFG, 'a', p)
+            pool.add_to_pool(t)
+        schd = NS(uuid_str='u', config=CFG, is_paused=False,
+                  stop_clock_time=None, stop_task=None, pool=pool,
+                  options=NS(fcp=None, startcp=None, stopcp=None,
+                             cycle_point_tz=None),
+                  get_run_mode=lambda: RunMode.LIVE)
+        table = {}
+        mgr.put_workflow_params(schd)          # start-up
+        _apply_params(mgr, table)
+        for o in ops_:
+            if o <= 1:
+                pool.set_hold_point(IntegerPoint(str(o + 1)))
+            elif o == 2:
+                pool.release_hold_point()
+            elif o == 3:
+                mgr.put_workflow_params(schd)
+            else:
+                schd.is_paused = not schd.is_paused
+                mgr.put_workflow_paused(schd.is_paused)
+            _apply_params(mgr, table)
+            want = None if pool.hold_point is None else str(pool.hold_point)
+            if table.get(mgr.KEY_HOLD_CYCLE_POINT) != want:
+                return False
+            if table.get(mgr.KEY_PAUSED) != int(schd.is_paused):
+                return False
+    return True
+
+
 def OBLIGATIONS(tier):
     big = tier == 'thorough'
     t = 1500 if big else 160
     return [Ob(f'ops[o1={o1}]', 'ops', timeout=t, twin=(o1 == 0),
-               slice={'o1': o1, 'n': 4 if big else 3}) for o1 in range(12)]
+               slice={'o1': o1, 'n': 4 if big else 3}) for o1 in range(12)
+            ] + [Ob('params_table', 'params_table', timeout=t)]
 
 
 def VALIDATE():
